@@ -268,10 +268,19 @@ def Rng.uniformReal (r : Rng) (lo hi : Float) : Float × Rng :=
   let d := uni01 r.gen
   ((hi - lo) * d.1 + lo, { r with gen := d.2 })
 
-/-- `(int)floor(uniformReal((double)lo, (double)hi + 1.0))`, capped at `hi` -/
+/-- `RNG::uniformInt` as fixed by /repo ebb35683a: `r = floor(uniformReal((double)lo, (double)hi + 1.0))`,
+`return r > (double)hi ? hi : (int)r` — the clamp happens in `double`, *before* the cast, so `hi = INT_MAX`
+(where the sum can round up to 2^31, not an `int`) is covered.  For `r ≤ hi` the cast is exact. -/
 def Rng.uniformInt (r : Rng) (lo hi : Int) : Int × Rng :=
   let d := r.uniformReal (Float.ofInt lo) (Float.ofInt hi + 1.0)
-  let v := (Float.floor d.1).toInt64.toInt
+  let v := Float.floor d.1
+  (if v > Float.ofInt hi then hi else v.toInt64.toInt, d.2)
+
+/-- the pre-fix form (`(int)floor(…)`, clamp after the cast; the cast of 2^31 is `INT_MIN` on x86-64), kept for the
+record: it differs from `uniformInt` only when the real value reaches `hi + 1 = 2^31`. -/
+def Rng.uniformIntOld (r : Rng) (lo hi : Int) : Int × Rng :=
+  let d := r.uniformReal (Float.ofInt lo) (Float.ofInt hi + 1.0)
+  let v := (Float.floor d.1).toInt32.toInt
   (if v > hi then hi else v, d.2)
 
 def Rng.uniformBool (r : Rng) : Bool × Rng :=
